@@ -114,7 +114,12 @@ def collect(ctx, validated, props):
 def replay(ctx, path, props):
     with open(path) as f:
         rp = json.load(f)
-    if rp.get('driver') == 'sweep':
+    if rp.get('driver') == 'fieldsweep':
+        item = (1 - rp['i'], rp['seed'], rp['prog'], rp['variant'], rp.get('per_class', 2))
+        b, sc = _shard_fieldsweep((0, [item], None))
+        b['traces'] = [t for t in b['traces'] if t['id'] == 1]
+        res = [(b, {1: sc[1]})]
+    elif rp.get('driver') == 'sweep':
         from harness import sweep
         tab = sweep.emit_table()
         item = (1, rp['seed'], rp['mode'], rp['prog'], rp['variant'], rp.get('i', 0))
@@ -155,6 +160,51 @@ def _shard_sweep(args):
                         'i': i, 'script': tr.pop('script')}
         traces.append(tr)
     return dict(rec.tab.dump(), traces=traces), scripts
+
+
+# ----------------------------------------------------------------------------------------------------------------------
+# (F) field sweep: systematic deletions (single-valued fields, tails / ends of list fields) of every node x field of the
+# corpus programs, each on a fresh tree
+
+def _shard_fieldsweep(args):
+    shard_id, items, _ = args
+    import random
+    from harness import edits, sweep, layouts
+    from corpus.programs import PROGRAMS
+    rec = edits.Recorder()
+    traces, scripts = [], {}
+    for tid0, seed, prog, variant, per_class in items:
+        src = layouts.variant(PROGRAMS[prog], variant, seed)
+        tree = edits.try_parse(src)
+        if tree is None:
+            continue
+        plans = edits.plan_field_sweep(tree, random.Random(seed), per_class)
+        for i, plan in enumerate(plans):
+            tid = tid0 + i
+            tr = sweep.run_single(rec, tid, seed + i, src, plan)
+            scripts[tid] = {'driver': 'fieldsweep', 'prog': prog, 'variant': variant, 'seed': seed, 'nsteps': 1,
+                            'mode': 'fieldsweep', 'i': i, 'per_class': per_class, 'script': tr.pop('script')}
+            traces.append(tr)
+    return dict(rec.tab.dump(), traces=traces), scripts
+
+
+def run_fieldsweep(ctx, variants, per_class, props, nproc=14, base=3000000):
+    from corpus.programs import PROGRAMS
+    rng = random.Random(ctx.seed * 13 + 11)
+    items = [(base + 2000 * (len(PROGRAMS) * vi + pi), rng.randrange(1 << 30), pi, v, per_class)
+             for vi, v in enumerate(variants) for pi in range(len(PROGRAMS))]
+    nshards = max(1, min(nproc, len(items) // 4 or 1))
+    shards = [(k, items[k::nshards], None) for k in range(nshards)]
+    if nshards == 1:
+        res = [_shard_fieldsweep(shards[0])]
+    else:
+        with mp.get_context('fork').Pool(nshards) as pool:
+            res = pool.map(_shard_fieldsweep, shards)
+    val = validate_all(ctx, res)
+    collect(ctx, val, props)
+    n = sum(len(b['traces']) for b, _ in res)
+    ctx.extra['fieldsweep_requests_replayed'] = n
+    return n
 
 
 def sweep_items(ctx, tab, per_template, n_arg, base=1000000):
